@@ -1,0 +1,23 @@
+//go:build verif
+
+package smtp
+
+import (
+	"net"
+
+	"github.com/rs/zerolog/log"
+)
+
+// VerifServeConn runs one SMTP session on the supplied connection and returns when it ends.
+// Verification hook: compiled only with the "verif" build tag.
+func (s *Server) VerifServeConn(id int, conn net.Conn) {
+	s.startSession(id, conn, log.Logger)
+}
+
+// VerifAddr returns the address the listener is bound to (nil before Start).
+func (s *Server) VerifAddr() net.Addr {
+	if s.listener == nil {
+		return nil
+	}
+	return s.listener.Addr()
+}
